@@ -47,6 +47,8 @@ type scripted struct {
 	pos int
 	zp  bool
 	pt  func(string) // scheduling point before every read (controlled concurrent rounds)
+	// together: the last bytes come back in the same Read call as the end (io.EOF or the error), as io.Reader allows
+	together bool
 }
 
 func newScripted(c Case) *scripted { return &scripted{c: c, zp: c.Zeros} }
@@ -74,6 +76,12 @@ func (s *scripted) Read(p []byte) (int, error) {
 	}
 	s.pos += n
 	s.zp = true
+	if s.together && s.pos == s.c.Cut {
+		if s.c.Endk == "eof" {
+			return n, io.EOF
+		}
+		return n, errIO
+	}
 	return n, nil
 }
 
@@ -267,10 +275,19 @@ func TestDrive(t *testing.T) {
 			okCount++
 		}
 		m["e"], m["consumer"], m["c"], m["case"] = "ingest", consumer, c, ci
+		if _, ok := m["together"]; !ok {
+			m["together"] = false
+		}
 		tr.Begin(n)
 		tr.Emit(m)
 	}
-	for ci, c := range cases {
+	for ci2 := 0; ci2 < 2*len(cases); ci2++ {
+		ci, c := ci2/2, cases[ci2/2]
+		together := ci2%2 == 1
+		if together && c.Cut == 0 {
+			continue // nothing to deliver together with the end
+		}
+		newScripted := func(c Case) *scripted { r := newScripted(c); r.together = together; return r }
 		if c.Data == nil {
 			c.Data = []int{}
 		}
@@ -281,14 +298,14 @@ func TestDrive(t *testing.T) {
 		// readers
 		if want("readall") {
 			b, err := content.ReadAll(newScripted(c), desc)
-			emit(ci, c, "readall", map[string]any{"ok": err == nil, "bytes": abstract(b)})
+			emit(ci, c, "readall", map[string]any{"together": together, "ok": err == nil, "bytes": abstract(b)})
 		}
 		if want("fetchall") {
 			f := content.FetcherFunc(func(context.Context, ocispec.Descriptor) (io.ReadCloser, error) {
 				return io.NopCloser(newScripted(c)), nil
 			})
 			b, err := content.FetchAll(ctx, f, desc)
-			emit(ci, c, "fetchall", map[string]any{"ok": err == nil, "bytes": abstract(b)})
+			emit(ci, c, "fetchall", map[string]any{"together": together, "ok": err == nil, "bytes": abstract(b)})
 		}
 		if want("verify") {
 			vr := content.NewVerifyReader(newScripted(c), desc)
@@ -297,7 +314,7 @@ func TestDrive(t *testing.T) {
 			if err == nil {
 				err = vr.Verify()
 			}
-			emit(ci, c, "verify", map[string]any{"ok": err == nil, "bytes": abstract([]byte(sb.String()))})
+			emit(ci, c, "verify", map[string]any{"together": together, "ok": err == nil, "bytes": abstract([]byte(sb.String()))})
 		}
 		// stores
 		for _, tg := range targets() {
@@ -329,7 +346,7 @@ func TestDrive(t *testing.T) {
 			}
 			// the same content asked for by its plain descriptor (no title), as a manifest's layer entry would
 			existsp, fetchpok, gotp := probe(ctx, st, descOf(c, ""))
-			emit(ci, c, tg.name, map[string]any{"ok": perr == nil, "exists": exists, "fetchok": fetchok, "bytes": abstract(got),
+			emit(ci, c, tg.name, map[string]any{"together": together, "ok": perr == nil, "exists": exists, "fetchok": fetchok, "bytes": abstract(got),
 				"existsp": existsp, "fetchpok": fetchpok, "bytesp": abstract(gotp),
 				"newblobs": nb1 - nb0, "badblobfiles": bad, "limit": map[string]int{"limited": 2, "fileunnamed": 1 << 22}[tg.name]})
 			closeFn()
